@@ -516,3 +516,176 @@ Proof.
   destruct (c_unblock F) eqn:U; intros [= <- <-];
     (eapply quiet_core_post; [exact Q|repeat split]).
 Qed.
+
+Lemma wf_core s s' : wf s -> core_eq s s' -> wf s'.
+Proof. intros W (K2 & T2 & F2 & Q2). unfold wf, wf0. rewrite K2, T2, F2, Q2. exact W. Qed.
+
+Lemma release_ids_ok : forall ts s, wf s ->
+  wf (release_ids ts s) /\ c_K (release_ids ts s) = c_K s /\ mono (tasks s) (tasks (release_ids ts s)).
+Proof.
+  induction ts as [|t r IH]; cbn; intros s W.
+  - split; auto. split; auto. apply mono_refl.
+  - match goal with |- context [release_ids r ?x] => set (s1 := x) end.
+    assert (H1 : wf s1 /\ c_K s1 = c_K s /\ mono (tasks s) (tasks s1)).
+    { unfold s1. destruct (t_hasctx t && negb (is_note t)).
+      2: { split; auto. split; auto. apply mono_refl. }
+      destruct (assoc (t_id t) (used s)) as [owner|].
+      2: { split; auto. split; auto. apply mono_refl. }
+      split; [|split].
+      - eapply wf_core; [apply (wf_cancel_task owner s W)|repeat split].
+      - cbn. apply cancel_task_frame.
+      - cbn. apply cancel_task_mono. }
+    destruct H1 as (W1 & K1 & M1). destruct (IH s1 W1) as (W2 & K2 & M2).
+    split; auto. split; [congruence|]. eapply mono_trans; eauto.
+Qed.
+
+Lemma no_start_single o : (forall p c, o <> OStart p c) -> no_start [o].
+Proof. intros H p c [E|[]]. eapply H; eauto. Qed.
+
+Lemma read_cs_ok f s s' os : wf s -> read_cs f s = (s', os) -> quiet_ok s s' os.
+Proof.
+  intros W.
+  assert (Msg : forall i,
+    (if negb (running s) then (s <| rd := RExited |> <| wg ::= pred |>, [])
+      else match i with
+           | InBad => let '(s', os) := push_error s ParseError s_invalid_value in (s' <| rd := RIdle |>, os)
+           | InMsgs _ [] => let '(s', os) := push_error s InvalidRequest s_empty_batch in (s' <| rd := RIdle |>, os)
+           | InMsgs b ms =>
+               let '(s1, keep, os) := filter_batch ms s [] [] in
+               match keep with
+               | [] => (s1 <| rd := RIdle |>, os)
+               | _ => let s2 := s1 <| inq ::= fun q => q ++ [(b, keep)] |> <| rd := RIdle |> in
+                      if work_closed s2 && (length (inq s2) =? 1)
+                      then (s2 <| crash := Some CrSendOnClosedWork |>, os ++ [OCrash CrSendOnClosedWork])
+                      else (s2, os)
+               end
+           end) = (s', os) -> quiet_ok s s' os).
+  { intros i. destruct (negb (running s)).
+    { intros [= <- <-]. apply core_quiet; auto; [repeat split|apply no_start_nil]. }
+    destruct i as [|b ms].
+    { cbn. intros [= <- <-]. apply core_quiet; auto; [repeat split|]. apply no_start_single. discriminate. }
+    destruct ms as [|m ms].
+    { cbn. intros [= <- <-]. apply core_quiet; auto; [repeat split|]. apply no_start_single. discriminate. }
+    destruct (filter_batch (m :: ms) s [] []) as [[s1 keep] os1] eqn:FB.
+    apply filter_batch_core in FB as [C1 N1]; [|apply no_start_nil].
+    destruct keep as [|k0 keep].
+    { intros [= <- <-]. apply core_quiet; auto. }
+    cbn. match goal with |- context [if ?c then _ else _] => destruct c end; intros [= <- <-].
+    - apply core_quiet; auto.
+      apply no_start_app; auto. apply no_start_single. discriminate.
+    - apply core_quiet; auto. }
+  destruct f as [i|i|c]; [apply Msg|apply Msg|]. cbn.
+  destruct (stop_locked c s) as [s1 os1] eqn:SL. intros [= <- <-].
+  eapply quiet_core_post; [eapply stop_locked_ok; eauto|repeat split].
+Qed.
+
+(** * Every critical section *)
+Definition raw_ok (s s' : state) (os : list obs) : Prop :=
+  wf s' /\ c_K s' = c_K s /\ mono (tasks s) (tasks s') /\
+  (forall p c, In (OStart p c) os -> started s s' p c).
+
+Lemma quiet_raw s s' os : quiet_ok s s' os -> raw_ok s s' os.
+Proof. intros (W & K & M & N). repeat split; auto; try apply W. intros p c H. destruct (N _ _ H). Qed.
+
+Lemma raw_core_post s s' s'' os os' :
+  raw_ok s s' os -> core_eq s' s'' -> (forall p c, In (OStart p c) os' -> In (OStart p c) os) ->
+  raw_ok s s'' os'.
+Proof.
+  intros (W & K & M & St) C I. pose proof (wf_core _ _ W C) as W'.
+  destruct C as (K2 & T2 & F2 & Q2).
+  split; auto. split; [congruence|]. split; [rewrite T2; auto|].
+  intros p c H. destruct (St _ _ (I _ _ H)) as (k & t & t' & H1 & H2 & R).
+  exists k, t, t'. rewrite T2. auto.
+Qed.
+
+Lemma NoDup_snoc {A} (q : list A) k : NoDup q -> ~ In k q -> NoDup (q ++ [k]).
+Proof.
+  induction 1 as [|a q NI ND IH]; cbn; intros N.
+  - constructor; auto. constructor.
+  - constructor; [|apply IH; tauto].
+    intros H. apply in_app_or in H as [H|[H|[]]]; [auto|]. apply N. auto.
+Qed.
+
+Ltac no_start_tac := let H := fresh in intros ? ? H; cbn in H; intuition discriminate.
+Ltac fin St := cbn; try congruence; try (unfold holds; cbn; rewrite ?St; cbn; lia); auto.
+Ltac core_tac W :=
+  intros [= <- <-]; apply quiet_raw, core_quiet; [exact W|repeat split|try apply no_start_nil; no_start_tac].
+
+Lemma acquire_ok s k s' os : wf s -> step_raw s (LRelAcquire k) = Some (s', os) -> raw_ok s s' os.
+Proof.
+  intros W. pose proof W as [W0 I4]. cbn.
+  destruct (nth_error (tasks s) k) as [t|] eqn:E; [|discriminate].
+  destruct (t_st t) eqn:St; try discriminate.
+  destruct (negb (unit_running s t)); [discriminate|].
+  assert (Pre : t_pre t = None) by (destruct (wf_pre _ _ _ _ W0 _ _ E); congruence).
+  assert (Ev : forall st', mono (tasks s) (upd_nth k (fun t => t <| t_st := st' |>) (tasks s))).
+  { intros st'. apply mono_upd. intros x Hx. assert (x = t) by congruence. subst x.
+    split; [repeat split|]. cbn. rewrite St. cbn. split; auto. split; lia. }
+  destruct (t_cancelled t) eqn:C.
+  { intros [= <- <-]. unfold set_task. split; [|split; [reflexivity|split; [apply Ev|intros p c []]]].
+    split; [|exact I4]. unfold wf0. cbn.
+    eapply wfp_upd_noq; eauto; fin St. }
+  assert (WaitCase : sem_free s = 0 ->
+     raw_ok s (set_task k (fun t => t <| t_st := TWaiting |>) s <| sem_wait ::= fun q => q ++ [k] |>) []).
+  { intros F0. unfold set_task. split; [|split; [reflexivity|split; [apply Ev|intros p c []]]].
+    split; [|cbn; lia]. unfold wf0. cbn.
+    assert (NI : ~ In k (sem_wait s)).
+    { intros H. apply (wf_wait _ _ _ _ W0) in H as (x & Hx & Sx). congruence. }
+    eapply wfp_upd; eauto; fin St.
+    - apply NoDup_snoc; auto. exact (wf_nodup _ _ _ _ W0).
+    - intros j. rewrite in_app_iff. cbn. destruct (Nat.eqb_spec j k) as [->|N]; [tauto|].
+      split; [intros [H|[H|[]]]; [auto|congruence]|auto]. }
+  destruct (sem_free s) as [|fr] eqn:F.
+  { intros [= <- <-]. apply WaitCase; auto. }
+  destruct (sem_wait s) as [|k0 r] eqn:Q.
+  2: { exfalso. assert (H : k0 :: r = []) by (apply I4; lia). discriminate. }
+  assert (Take : forall st', holds (t <| t_st := st' |>) = true -> st' <> TWaiting ->
+            (t_builtin t = true -> st' <> TRunning) ->
+            wf (set_task k (fun t => t <| t_st := st' |>) s <| sem_free := fr |>)).
+  { intros st' H1 H2 H3. unfold set_task. split; [|cbn; auto].
+    unfold wf0. cbn. eapply wfp_upd_noq; [exact W0|exact E|..]; fin St.
+    rewrite H1, F. unfold holds. rewrite St. lia. }
+  destruct (t_builtin t) eqn:B; intros [= <- <-].
+  - split; [apply Take; [reflexivity|discriminate|discriminate]|].
+    split; [reflexivity|]. split; [apply Ev|intros p c []].
+  - split; [apply Take; [reflexivity|discriminate|discriminate]|].
+    split; [reflexivity|]. split; [apply Ev|].
+    intros p c [H|[]]. injection H as <- <-.
+    exists k, t, (t <| t_st := TRunning |>). split; auto. split.
+    + unfold set_task. cbn. apply nth_error_upd_nth_eq; auto.
+    + repeat split; auto.
+Qed.
+
+Lemma handled_ok s k s' os : wf s -> step_raw s (LRelHandled k) = Some (s', os) -> raw_ok s s' os.
+Proof.
+  intros W. pose proof W as [W0 I4]. cbn -[grant].
+  destruct (nth_error (tasks s) k) as [t|] eqn:E; [|discriminate].
+  destruct (t_st t) eqn:St; try discriminate.
+  set (s1 := set_task k (fun t => t <| t_st := TDone (body_of_outcome t o) |>) s <| sem_free ::= S |>).
+  destruct (grant (S (length (sem_wait s))) s1 []) as [s2 os2] eqn:G.
+  assert (W1 : wf0 s1).
+  { unfold wf0, s1, set_task. cbn. eapply wfp_upd_noq; eauto; fin St.
+    left. destruct (wf_pre _ _ _ _ W0 _ _ E); congruence. }
+  destruct (grant_spec _ _ _ _ _ W1 G) as (W2 & K2 & T2 & G2 & ex & Eos & Hex). cbn in Eos. subst os2.
+  assert (E1 : nth_error (tasks s1) k = Some (t <| t_st := TDone (body_of_outcome t o) |>)).
+  { unfold s1, set_task. cbn. erewrite nth_error_upd_nth_eq by exact E. reflexivity. }
+  assert (R : raw_ok s s2 ex).
+  { split; [split; auto; intros H; destruct (T2 (Nat.lt_succ_diag_r _)); [lia|auto]|].
+    split; [rewrite K2; reflexivity|]. split.
+    - eapply mono_trans; [|apply gmono_mono; exact G2].
+      unfold s1, set_task. cbn. apply mono_upd. intros x Hx. assert (x = t) by congruence. subst x.
+      split; [repeat split|]. cbn. rewrite St. cbn. split; auto. split; lia.
+    - intros p c H. destruct (Hex _ H) as (j & x & x' & Ho & Hx & Hx' & Sx & Bx & Sx' & Px').
+      injection Ho as -> ->.
+      assert (N : k <> j). { intros <-. rewrite E1 in Hx. injection Hx as <-. discriminate. }
+      unfold s1, set_task in Hx. cbn in Hx. rewrite nth_error_upd_nth_neq in Hx by auto.
+      exists j, x, x'. repeat split; auto. }
+  assert (P1 : forall s3, core_eq s2 s3 -> raw_ok s s3 ex).
+  { intros s3 C. eapply raw_core_post; eauto. }
+  assert (P2 : forall s3 o', (forall p c, o' <> OStart p c) -> core_eq s2 s3 -> raw_ok s s3 (ex ++ [o'])).
+  { intros s3 o' D C. eapply raw_core_post; eauto.
+    intros p c H. apply in_app_or in H as [H|H]; auto. destruct H as [H|[]]. destruct (D _ _ H). }
+  destruct (is_note t).
+  - destruct (nbar s2); intros [= <- <-]; [apply P2; [discriminate|repeat split]|apply P1; repeat split].
+  - intros [= <- <-]. apply P1, core_eq_refl.
+Qed.
